@@ -1,10 +1,73 @@
 #!/usr/bin/env python3
-"""C06 (driver gating): failed shadow tests stop nanoc before any artifact is produced; passing ones let it proceed."""
-import os, sys
+"""C06: (a) driver gating - failed shadow tests stop nanoc before any artifact is produced; (b) the real evaluator's
+run_shadow_tests on ASTs with symbolic assertion outcomes - it succeeds iff every assertion held."""
+import os, sys, time
 sys.path.insert(0, os.path.dirname(os.path.abspath(__file__)))
-import c05
-c05.META = dict(c05.META)
-c05.META['outside'] = ['how run_shadow_tests aggregates assertion failures and how AST_ASSERT records them (eval.c): a harness on harness-built ASTs with symbolic assertion values gave no verdict in 600 s (attempts/shadow_gate.c) - NOT decided; the seeded changes C06/a (break flag leaks out of for) and C06/b (last shadow block wins) live there and are NOT detected',
+sys.path.insert(0, os.path.join(os.path.dirname(os.path.abspath(__file__)), '..', 'lib'))
+from vlib import *
+import c05, drvjobs
+
+PRE = {0: 'no loop', 1: 'for i in (range 0 2) { break } first', 2: 'for i in (range 0 2) { continue } first', 3: 'while true { break } first'}
+
+def shadow_job(ns, na, nest, pre):
+    return Job(name='c06_shadow_s%d_a%d_n%d_p%d' % (ns, na, nest, pre), harness='shadow_gate.c', sources=[],
+               src_defines={'NSHADOW': ns, 'NASSERT': na, 'NEST': nest, 'PRELOOP': pre, 'union': 'struct'},
+               unwind=2 * ns + 4, unwindset=['strcmp.0:24'], gen_bodies='keep-libc', flags=['--slice-formula'], overflow=False, timeout=900, replay='custom',
+               must_witness=['all passed', 'some failed'], group='shadow_runner',
+               desc={'shadow_blocks': ns, 'asserts_per_block': na, 'last_assert_nested_in_if': bool(nest), 'before_the_asserts': PRE[pre],
+                     'symbolic': 'truth value of every assert condition (all 2^%d outcome vectors), verbose flag' % (ns * na),
+                     'modelling': 'the TU is compiled with -Dunion=struct (AST node / Value unions as structs: CBMC does not track pointers stored in unions); AST statically initialised'})
+
+
+def shadow_replay(job, failed, inputs, outdir):
+    """Replay on the real nanoc: the same shadow blocks as source text; reproduced iff nanoc's exit status disagrees with
+    'every assertion held'."""
+    sys.path.insert(0, os.path.join(VERIF, 'gen'))
+    import e2
+    d = job.src_defines; ns, na, nest, pre = d['NSHADOW'], d['NASSERT'], d['NEST'], d['PRELOOP']
+    cs = [inputs.get('in_cv[%d]' % k, 1) & 1 for k in range(ns * na)]
+    loop = {0: '', 1: '    for i in (range 0 2) {\n        break\n    }\n', 2: '    for i in (range 0 2) {\n        continue\n    }\n', 3: '    while true {\n        break\n    }\n'}[pre]
+    src = 'fn f() -> int {\n    return 1\n}\n\n'
+    for s in range(ns):
+        src += 'shadow f {\n' + loop
+        for k in range(na):
+            a = '    assert %s\n' % ('true' if cs[s * na + k] else 'false')
+            if nest and k == na - 1: a = '    if true {\n    ' + a + '    }\n'
+            src += a
+        src += '}\n\n'
+        if s + 1 < ns: src += 'struct Filler%d {\n    x: int\n}\n\n' % s
+    src += 'fn main() -> int {\n    return 0\n}\nshadow main { assert true }\n'
+    tools = e2.build_tools()
+    p = os.path.join(outdir, 'replay.nano'); open(p, 'w').write(src)
+    out = os.path.join(outdir, 'replay_bin')
+    rc, so, se = sh([os.path.join(tools, 'bin', 'nanoc_c'), p, '-o', out], timeout=300, cwd=tools, env=dict(os.environ, TMPDIR=outdir))
+    allok = all(cs)
+    open(os.path.join(outdir, 'output.txt'), 'w').write(src + '\n--- nanoc exit=%s, binary %s\n%s\n' % (rc, 'present' if os.path.exists(out) else 'absent', (so + se)[-1500:]))
+    open(os.path.join(outdir, 'cmd.txt'), 'w').write('nanoc_c replay.nano -o replay_bin ; echo $?\n')
+    if (rc == 0) != allok or os.path.exists(out) != allok:
+        return True, 'reproduced on the real nanoc: assertion outcomes %s, nanoc exit=%s, binary %s' % (cs, rc, 'present' if os.path.exists(out) else 'absent')
+    return False, 'did not reproduce on the real nanoc (outcomes %s, exit %s)' % (cs, rc)
+
+
+def main():
+    tier = tier_arg(); t0 = time.time()
+    jobs = drvjobs.gate_jobs('c06', tier)
+    shapes = [(1, 1, 0, 0), (2, 2, 0, 0), (2, 2, 1, 0), (1, 2, 0, 1), (1, 2, 0, 2), (1, 2, 0, 3), (2, 1, 1, 1)]
+    if tier == 'thorough':
+        shapes += [(ns, na, nest, pre) for ns in (1, 2) for na in (1, 2) for nest in (0, 1) for pre in (0, 1, 2, 3)]
+    seen = set()
+    for sh_ in shapes:
+        if sh_ not in seen:
+            seen.add(sh_); jobs.append(shadow_job(*sh_))
+    run_jobs(jobs)
+    meta = dict(c05.META)
+    meta['functions_encoded'] = list(meta.get('functions_encoded', [])) + ['eval.c: run_shadow_tests, eval_statement (block, assert, if, for, while, break, continue), eval_expression (literals), contains_extern_calls']
+    meta['bounds'] = dict(meta.get('bounds', {}), shadow_runner='1-2 shadow blocks (a struct definition between them) x 1-2 assert statements each, last one optionally nested in `if true`, optionally preceded by a for/while loop that breaks or continues; all assertion outcome vectors')
+    meta['outside'] = ['assert conditions are literals with symbolic truth values (the evaluation of the condition expression is C03\'s subject); user function calls, let/set and scoping inside shadow bodies; extern-call skipping; the JSON failure report',
                        'the missing-shadow diagnostic of typechecker.c'] + c05.META['outside'][1:]
+    meta['stubs'] = list(meta.get('stubs', [])) + ['shadow runner: env_get_function returns a Function without body whose shadow_test is the LAST shadow block (what typechecker.c links), env_define_var appends to a 4-entry table, dup/dup2/open/close/fflush/getenv inert, every other body-less function returns an arbitrary value']
+    meta['explanation'] = (meta.get('explanation', '') + ' Shadow runner: the real run_shadow_tests executes statically built shadow bodies whose assert conditions are symbolic; the result must be true iff all conditions are true, and shadow mode must be left afterwards.').strip()
+    sys.exit(finish('C06', tier, 'model_checking', jobs, meta, t0, custom_replay=shadow_replay))
+
 if __name__ == '__main__':
-    c05.main('C06')
+    main()
